@@ -616,7 +616,17 @@ func runC06Receipts(rc *RC) {
 		rc.S.PausePerm = 10
 	}
 	var unhandled []string
-	rh := &receipts.Handler{Unhandled: func(id string) { unhandled = append(unhandled, id) }}
+	type uhAt struct {
+		at   time.Duration
+		step int
+	}
+	unhandledAt := map[string]uhAt{}
+	rh := &receipts.Handler{Unhandled: func(id string) {
+		unhandled = append(unhandled, id)
+		if _, ok := unhandledAt[id]; !ok {
+			unhandledAt[id] = uhAt{rc.S.Now(), rc.S.Steps}
+		}
+	}}
 	sentinel := false
 	m := mux.New(e.NS, receipts.Handle(rh), mux.MessageFunc(stanza.ChatMessage, xml.Name{Local: "body"}, func(msg stanza.Message, t xmlstream.TokenReadEncoder) error {
 		if msg.ID == "sentinel" {
@@ -634,6 +644,9 @@ func runC06Receipts(rc *RC) {
 		done     bool
 		retStep  int
 		ackStep  int // step at which the peer wrote the first receipt for this id (-1: never)
+		startAt  time.Duration
+		endAt    time.Duration // when the call's context ended or will end
+		acks     int           // receipts the peer sends for this id
 	}
 	var calls []*rcall
 	n := ch.Range("workload", 1, 4)
@@ -657,8 +670,17 @@ func runC06Receipts(rc *RC) {
 		tasks = append(tasks, rc.Spawn("req-"+c.id, func() {
 			ctx, cancel := context.WithTimeout(e.Ctx, c.timeout)
 			defer simrt.Settle(cancel, "h:cancel")
+			c.startAt = rc.S.Now()
+			c.endAt = c.startAt + c.timeout
 			if c.cancelAt > 0 {
-				rc.Spawn("canceller", func() { simrt.Sleep(c.cancelAt); rc.Fire("cancel"); cancel() })
+				rc.Spawn("canceller", func() {
+					simrt.Sleep(c.cancelAt)
+					rc.Fire("cancel")
+					if now := rc.S.Now(); now < c.endAt {
+						c.endAt = now
+					}
+					cancel()
+				})
 			}
 			c.err = rh.SendMessageElement(ctx, e.Sess, xmlstream.Wrap(xmlstream.Token(xml.CharData("hi")), xml.StartElement{Name: xml.Name{Local: "body"}}),
 				stanza.Message{ID: c.id, Type: stanza.ChatMessage, To: jid.MustParse("peer@example.net")})
@@ -695,6 +717,7 @@ func runC06Receipts(rc *RC) {
 					rc.Fire("peer-dup")
 					times = 2
 				}
+				c.acks += times
 				for k := 0; k < times; k++ {
 					dl := delays[ch.Int("peer", len(delays))]
 					pending++
@@ -742,6 +765,10 @@ func runC06Receipts(rc *RC) {
 			}
 		} else if c.ctxErr == nil || !errors.Is(c.err, c.ctxErr) {
 			rc.Failf("C06.c1", "error-not-ctx:receipts.SendMessageElement", "SendMessageElement id=%s returned %v but its context error is %v", c.id, c.err, c.ctxErr)
+		} else if u, ok := unhandledAt[c.id]; ok && c.acks == 1 && u.step < c.retStep && u.at < c.endAt {
+			// "or with its context's error if that comes first": the only receipt was there first, and nobody else could
+			// take it (with two receipts the second one goes to Unhandled by design)
+			rc.Failf("C06.c1", "receipt-unhandled-while-caller-waits:receipts.SendMessageElement", "SendMessageElement id=%s returned %v at step %d, but the receipt for that id had been given to Unhandled at step %d, t=%v, while the call was waiting and its context had not ended (it ended at t=%v)", c.id, c.err, c.retStep, u.step, u.at, c.endAt)
 		}
 	}
 	rc.Check("C06.c4", "sentinel-not-handled:receipts", sentinel, "a message sent after all receipt waits ended never reached its handler (serve loop stalled): %v stuck %v", st2, rc.S.Stuck())
